@@ -5,6 +5,7 @@ import (
 	"encoding/json"
 	"fmt"
 	mrand "math/rand/v2"
+	"reflect"
 	"sort"
 	"time"
 
@@ -35,6 +36,11 @@ type PlanC02 struct {
 	Frames []Hostile `json:"frames"`
 	Faults FaultSpec `json:"faults"`
 	Trans  string    `json:"trans"` // listener kind for the session modes: tcp, ws
+	// transport modes: the receiver polls with receive contexts of RecvCtxMs (0 = 30 s) and calls
+	// Receive again after an expiry; the writer pauses GapMs after each frame
+	RecvCtxMs int  `json:"recv_ctx_ms,omitempty"`
+	GapMs     int  `json:"gap_ms,omitempty"`
+	Trace     bool `json:"trace,omitempty"` // TCP transport configured with a TraceWriter
 }
 
 var sessionTemplates = []string{
@@ -76,6 +82,11 @@ func genC02(t *simrt.Tape, tier string) interface{} {
 		}
 		p.Frames = append(p.Frames, h)
 	}
+	if t.Draw(5) == 0 {
+		p.RecvCtxMs = []int{1, 20, 300, 2000}[t.Draw(4)]
+		p.GapMs = []int{0, 5, 100, 900, 3000}[t.Draw(5)]
+	}
+	p.Trace = t.Draw(6) == 0
 	if t.Draw(2) == 0 {
 		p.Faults = GenFaults(t, 800, true)
 		p.Faults.Capacity = 0
@@ -280,7 +291,11 @@ func runC02(w *World, pi interface{}) {
 	}
 	switch p.Mode {
 	case "xport-tcp":
-		l := lime.NewTCPTransportListener(&lime.TCPConfig{ReadLimit: 1 << 20})
+		tcfg := &lime.TCPConfig{ReadLimit: 1 << 20}
+		if p.Trace {
+			tcfg.TraceWriter = newDiscardTrace()
+		}
+		l := lime.NewTCPTransportListener(tcfg)
 		if err := l.Listen(context.Background(), tcpAddr(7700)); err != nil {
 			return
 		}
@@ -302,16 +317,35 @@ func runC02(w *World, pi interface{}) {
 				if _, err := raw.Write(b); err != nil {
 					return
 				}
+				if p.GapMs > 0 {
+					time.Sleep(time.Duration(p.GapMs) * time.Millisecond)
+				}
 			}
 			time.Sleep(time.Second)
 			raw.Close()
 		}()
 		again := 0
+		rtmo := 30 * time.Second
+		polls := 0
+		if p.RecvCtxMs > 0 {
+			rtmo = time.Duration(p.RecvCtxMs) * time.Millisecond
+		}
 		for i := 0; i < 2*len(stream)+4; i++ {
-			rctx, rcancel := context.WithTimeout(context.Background(), 30*time.Second)
+			rctx, rcancel := context.WithTimeout(context.Background(), rtmo)
 			env, err := tr.Receive(rctx)
 			expired := rctx.Err() != nil
 			rcancel()
+			if err == nil && isNilEnvelope(env) {
+				w.Violate("C02.neither-envelope-nor-error", "the TCP transport", "Receive #%d on the TCP transport returned neither an envelope nor an error (after %d expired receive contexts and %d rejected envelopes)", i, polls, again)
+				break
+			}
+			if err != nil && expired && p.RecvCtxMs > 0 && polls < 40 && tr.Connected() {
+				// a polling receiver: the context ran out, Receive is called again
+				polls++
+				i--
+				w.Count("receive-context-expired")
+				continue
+			}
 			if err != nil {
 				w.Count("rejected")
 				// an envelope that is well-formed JSON but no valid envelope is rejected on its own:
@@ -364,6 +398,10 @@ func runC02(w *World, pi interface{}) {
 			env, err := tr.Receive(rctx)
 			expired := rctx.Err() != nil
 			rcancel()
+			if err == nil && isNilEnvelope(env) {
+				w.Violate("C02.neither-envelope-nor-error", "the websocket transport", "Receive #%d on the websocket transport returned neither an envelope nor an error", i)
+				break
+			}
 			if err != nil {
 				w.Count("rejected")
 				if !tr.Connected() {
@@ -505,6 +543,14 @@ func runC02(w *World, pi interface{}) {
 }
 
 func hasPanic() bool { return false }
+
+func isNilEnvelope(env interface{}) bool {
+	if env == nil {
+		return true
+	}
+	rv := reflect.ValueOf(env)
+	return rv.Kind() == reflect.Ptr && rv.IsNil()
+}
 
 func init() {
 	register(&PropDef{
